@@ -43,7 +43,7 @@ fn cfg_for(fat: u8, tiny: bool) -> RunCfg {
     let (total, spc) = match fat {
         12 => (400u32, 1u8),
         16 => (4500, 1),
-        _ => (66_200, 1),
+        _ => (67_400, 1),
     };
     RunCfg {
         vol: VolCfg { source: VolSource::Format, fat, bps: 512, spc, fats: 2, root_entries: if tiny { 16 } else { 64 }, total_sectors: total, extra_sectors: 0, ballast_keep: if tiny { Some(3) } else { None }, ballast_mode: 0, fsinfo_mode: 0, hint: None, status: 0, label: false, tail_taken: 0 },
